@@ -31,7 +31,7 @@ def loop_progress(prog, res):
     R = "T3.loop-progress"
     for name, progress_calls, progress_fields in (
             ("ZSTD_compressStream_generic", ("ZSTD_compressContinue_public", "ZSTD_compressEnd_public"), ()),
-            ("ZSTD_decompressStream", ("ZSTD_decompressContinueStream", "ZSTD_decompressLegacyStream", "ZSTD_decompress_usingDDict"), ("lhSize",))):
+            ("ZSTD_decompressStream", ("ZSTD_decompressContinueStream", "ZSTD_decompressLegacyStream", "ZSTD_decompressLegacyStream_counted", "ZSTD_decompress_usingDDict"), ("lhSize",))):
         f = prog.fn(name)
         heads = []
         for bid, cond, t, fl in f.branches():
